@@ -33,6 +33,7 @@ const (
 	Executed                  // merely having executed the call on every path
 	EqConst                   // result == named constant / != others: see Guard.Consts
 	LenNonZero                // len(result) != 0 / > 0
+	ErrIs                     // errors.Is/As(result, one of Accept) is true
 )
 
 // Comp is one component of a guard's pass condition.
@@ -97,6 +98,18 @@ type GuardFlow struct {
 	calls   map[ssa.Instruction][]int // guard indices established by this call
 	results map[ssa.Value][]resRef    // value -> guard component it is the result of
 	Sites   map[int][]ssa.CallInstruction
+	Mem     *MemReach
+	derived []Derived
+	dbit    []int
+}
+
+// Derived is a fact that holds when all guards of at least one alternative passed;
+// it survives joins where different alternatives were taken on different paths
+// (a disjunction the plain must-set cannot express). It is killed whenever one of
+// the guards it may depend on is called again.
+type Derived struct {
+	Name string
+	Alts [][]string // guard names
 }
 
 type resRef struct{ g, c int }
@@ -104,8 +117,8 @@ type resRef struct{ g, c int }
 const allFacts = ^factSet(0)
 
 // Flow runs the analysis of fn for the given guards.
-func Flow(fn *ssa.Function, guards []Guard) *GuardFlow {
-	gf := &GuardFlow{Fn: fn, Guards: guards, edgeOut: map[[2]int]factSet{}, calls: map[ssa.Instruction][]int{}, results: map[ssa.Value][]resRef{}, Sites: map[int][]ssa.CallInstruction{}}
+func Flow(fn *ssa.Function, guards []Guard, derived ...Derived) *GuardFlow {
+	gf := &GuardFlow{Mem: NewMemReach(fn), derived: derived, Fn: fn, Guards: guards, edgeOut: map[[2]int]factSet{}, calls: map[ssa.Instruction][]int{}, results: map[ssa.Value][]resRef{}, Sites: map[int][]ssa.CallInstruction{}}
 	for gi := range guards {
 		if len(guards[gi].Comps) == 0 {
 			guards[gi].Comps = []Comp{{Result: -1, Kind: ErrNil}}
@@ -116,6 +129,10 @@ func Flow(fn *ssa.Function, guards []Guard) *GuardFlow {
 			gf.nbits++
 		}
 		gf.bit = append(gf.bit, bs)
+	}
+	for range derived {
+		gf.dbit = append(gf.dbit, gf.nbits)
+		gf.nbits++
 	}
 	if gf.nbits > 64 {
 		panic("too many guard components")
@@ -165,6 +182,7 @@ func Flow(fn *ssa.Function, guards []Guard) *GuardFlow {
 			out := f
 			if ifi, ok := b.Instrs[len(b.Instrs)-1].(*ssa.If); ok {
 				out |= gf.edgeFacts(ifi.Cond, si == 0)
+				out = gf.close(out)
 			}
 			key := [2]int{bi, succ.Index}
 			// Two edges to the same successor (if c goto X else goto X): meet them.
@@ -185,9 +203,60 @@ func Flow(fn *ssa.Function, guards []Guard) *GuardFlow {
 	return gf
 }
 
+// close adds derived facts whose alternatives are satisfied.
+func (gf *GuardFlow) close(f factSet) factSet {
+	if f == allFacts {
+		return f
+	}
+	for di, d := range gf.derived {
+		for _, alt := range d.Alts {
+			ok := true
+			for _, nm := range alt {
+				gi := gf.guardIndex(nm)
+				if gi < 0 || !gf.Passed(f, gi) {
+					ok = false
+					break
+				}
+			}
+			if ok {
+				f |= 1 << gf.dbit[di]
+			}
+		}
+	}
+	return f
+}
+
+func (gf *GuardFlow) guardIndex(name string) int {
+	for i, g := range gf.Guards {
+		if g.Name == name {
+			return i
+		}
+	}
+	return -1
+}
+
+// DerivedPassed reports whether derived fact name is in f.
+func (gf *GuardFlow) DerivedPassed(f factSet, name string) bool {
+	for di, d := range gf.derived {
+		if d.Name == name {
+			return f&(1<<gf.dbit[di]) != 0
+		}
+	}
+	return false
+}
+
 func (gf *GuardFlow) transfer(f factSet, in ssa.Instruction) factSet {
 	if gis, ok := gf.calls[in]; ok {
 		for _, gi := range gis {
+			for di, d := range gf.derived {
+				for _, alt := range d.Alts {
+					for _, nm := range alt {
+						if nm == gf.Guards[gi].Name {
+							f &^= 1 << gf.dbit[di]
+						}
+					}
+				}
+			}
 			for ci, c := range gf.Guards[gi].Comps {
 				if c.Kind == Executed {
 					if _, isDefer := in.(*ssa.Defer); !isDefer {
@@ -198,6 +267,7 @@ func (gf *GuardFlow) transfer(f factSet, in ssa.Instruction) factSet {
 				}
 			}
 		}
+		f = gf.close(f)
 	}
 	return f
 }
@@ -244,7 +314,7 @@ func (gf *GuardFlow) propagatePhis() {
 					first := true
 					ok := true
 					for _, e := range x.Edges {
-						refs := gf.results[e]
+						refs := gf.results[gf.Mem.Canon(e)]
 						if len(refs) == 0 {
 							if _, isC := e.(*ssa.Const); isC || e == x {
 								continue // judged below against kind
@@ -267,7 +337,7 @@ func (gf *GuardFlow) propagatePhis() {
 						kind := gf.Guards[r.g].Comps[r.c].Kind
 						neutral := true
 						for _, e := range x.Edges {
-							if c, isC := e.(*ssa.Const); isC && len(gf.results[e]) == 0 {
+							if c, isC := e.(*ssa.Const); isC && len(gf.results[gf.Mem.Canon(e)]) == 0 {
 								if !constIsFailing(c, kind) {
 									neutral = false
 								}
@@ -282,12 +352,12 @@ func (gf *GuardFlow) propagatePhis() {
 						changed = true
 					}
 				case *ssa.ChangeInterface:
-					if r, ok := gf.results[x.X]; ok && gf.results[x] == nil {
+					if r, ok := gf.results[gf.Mem.Canon(x.X)]; ok && gf.results[x] == nil {
 						gf.results[x] = r
 						changed = true
 					}
 				case *ssa.ChangeType:
-					if r, ok := gf.results[x.X]; ok && gf.results[x] == nil {
+					if r, ok := gf.results[gf.Mem.Canon(x.X)]; ok && gf.results[x] == nil {
 						gf.results[x] = r
 						changed = true
 					}
@@ -309,7 +379,7 @@ func (gf *GuardFlow) propagatePhis() {
 								good = false
 								break
 							}
-							refs := gf.results[st.Val]
+							refs := gf.results[gf.Mem.Canon(st.Val)]
 							if len(refs) == 0 {
 								if c, isC := st.Val.(*ssa.Const); isC && c.IsNil() {
 									continue
@@ -435,6 +505,7 @@ func (gf *GuardFlow) edgeFacts(cond ssa.Value, branch bool) factSet {
 }
 
 func (gf *GuardFlow) isResult(v ssa.Value, r resRef) bool {
+	v = gf.Mem.Canon(v)
 	for _, x := range gf.results[v] {
 		if x == r {
 			return true
@@ -471,6 +542,7 @@ func (gf *GuardFlow) eval(v ssa.Value, r resRef, depth int) tri {
 		return triU
 	}
 	comp := gf.Guards[r.g].Comps[r.c]
+	v = gf.Mem.Canon(v)
 	if b, ok := boolConst(v); ok {
 		if b {
 			return triT
@@ -595,7 +667,7 @@ func (gf *GuardFlow) eval(v ssa.Value, r resRef, depth int) tri {
 		}
 	case *ssa.Call:
 		name := CalleeName(x)
-		if (name == "errors.Is" || name == "errors.As") && len(x.Call.Args) == 2 && comp.Kind == ErrNil {
+		if (name == "errors.Is" || name == "errors.As") && len(x.Call.Args) == 2 && (comp.Kind == ErrNil || comp.Kind == ErrIs) {
 			if gf.isResult(x.Call.Args[0], r) {
 				tgt := errTargetName(x.Call.Args[1])
 				for _, a := range comp.Accept {
@@ -746,7 +818,8 @@ type EffectRule struct {
 	Fn     string // short function name
 	Effect func(p *Prog, in ssa.Instruction) (desc string, ok bool)
 	Guards []Guard
-	// Need optionally restricts the guards required at a site (by guard name); nil = all.
+	Derived []Derived
+	// Need optionally restricts the guards (or derived facts) required at a site, by name; nil = all guards.
 	Need func(desc string) []string
 	// Min is the minimum number of effect sites that must be found in this function.
 	Min int
@@ -763,10 +836,13 @@ func CheckEffects(p *Prog, h *RuleH, r EffectRule) {
 }
 
 func CheckEffectsFn(p *Prog, h *RuleH, fn *ssa.Function, r EffectRule) int {
-	gf := Flow(fn, r.Guards)
+	gf := Flow(fn, r.Guards, r.Derived...)
 	idx := map[string]int{}
 	for i, g := range r.Guards {
 		idx[g.Name] = i
+	}
+	for i, d := range r.Derived {
+		idx[d.Name] = -1 - i
 	}
 	n := 0
 	for _, b := range fn.Blocks {
@@ -792,6 +868,16 @@ func CheckEffectsFn(p *Prog, h *RuleH, fn *ssa.Function, r EffectRule) int {
 				}
 			}
 			for _, gi := range req {
+				if gi < 0 {
+					d := r.Derived[-1-gi]
+					c := fmt.Sprintf("%s#%s!%s", FuncName(fn), desc, d.Name)
+					if gf.DerivedPassed(f, d.Name) {
+						h.OK(c, p.InstrPos(in), "one alternative of the disjunctive guard passed on every path to the effect")
+					} else {
+						h.Bad(c, p.InstrPos(in), fmt.Sprintf("effect %s is reachable on a path where none of the alternatives %v of %q has passed; passed here: [%s]", desc, d.Alts, d.Name, strings.Join(gf.PassedNames(f), ",")))
+					}
+					continue
+				}
 				g := r.Guards[gi]
 				c := fmt.Sprintf("%s#%s!%s", FuncName(fn), desc, g.Name)
 				if gf.Passed(f, gi) {
